@@ -254,7 +254,7 @@ def solve_hist(ctx, rng, idx):
     if s.rname != "extrapol1" and not implicit:
         cfl = min(cfl, 0.4)
     dtlocal = bool(rng.random() < 0.15)
-    t0 = float(rng.choice([0.0, 0.0, np.round(rng.uniform(-1, 3), 3)]))
+    t0 = float(rng.choice([0.0, 0.0, np.round(rng.uniform(-1, 3), 3), np.round(rng.uniform(-1, 3), 3), float(rng.choice([-1.0, 1.0])) * 10 ** float(rng.integers(2, 7))]))
     restart = bool(rng.random() < 0.25)
     f = ffield.fdata(s.model, s.mesh, s.field.data, t=t0, it=int(rng.integers(0, 50)) if restart else -1)
     directives = {"dtlocal": True} if dtlocal else {}
@@ -304,8 +304,13 @@ def solve_hist(ctx, rng, idx):
         del solvelog.LOGS[:]
         ctx.describe(integrator_used_before_with_another_cfl=True)
     call = solver.restart if restart else solver.solve
+    # the save times as a list, a tuple or an array; the CFL number as a python float or a numpy scalar
+    form = str(rng.choice(["list", "list", "tuple", "array"]))
+    tsave_arg = tsave if form == "list" else tuple(tsave) if form == "tuple" else np.array(tsave, dtype=float)
+    cfl_arg = cfl if rng.random() < 0.7 else np.float64(cfl)
+    ctx.describe(tsave_given_as=form, cfl_given_as=type(cfl_arg).__name__)
     try:
-        call(f, cfl, tsave, stop=stop or None, directives=directives)
+        call(f, cfl_arg, tsave_arg, stop=stop or None, directives=directives)
     except np.linalg.LinAlgError:
         raise core.Skip("singular implicit system")
     finally:
